@@ -4,7 +4,9 @@
 EXTENDS Symmetries, Sequences
 CfgOf(r) == [N |-> r.N, R |-> r.R, span |-> r.span, ge |-> r.ge, maxDelta |-> r.maxDelta, mash |-> r.mash,
              tofMash |-> r.tofMash, maxT |-> IF r.tofMash = 0 THEN 0 ELSE r.maxT, minTang |-> r.minTang, maxTang |-> r.maxTang,
-             minSeg |-> r.minSeg, maxSeg |-> r.maxSeg]
+             minSeg |-> r.minSeg, maxSeg |-> r.maxSeg,
+             \* block geometry: axial crystals per block; uniform = no gap between axial blocks
+             cpb |-> IF "cpb" \in DOMAIN r /\ r.cpb >= 1 THEN r.cpb ELSE 1, uniform |-> "gap" \notin DOMAIN r \/ r.gap = 0]
 \* fixed-point observations of the grid (2^-10 ratios, 2^-12 mm) -> the grid record; the tolerances
 \* are those of the implementation's own tests (1e-2 planes, 2e-3 mm voxel size, 1e-2 mm origin)
 Near(x, unit, tol) == LET m == Mod(x + unit \div 2, unit) - unit \div 2 IN Abs(m) <= tol
